@@ -3,6 +3,10 @@
    wbx <ctor> <steps>     -> model transcript only (scripts that break the Buf contract of the caller)
    wr <s|c> <cfg> <budget> <prog> -> model per-stream bytes | the reference parser's verdict on them
    judge <s|c> s<id>=<hex>[/F] ... -> `ok` or `bad s<id>:<reason> ...` (the reference RFC 9114 parser on given logs)
+   ctor fp:<id>:<hex> = Frame::PushPromise (never built by h3 for sending; reachable through the public Frame::decode):
+   only used with wbx, the model's transcript carries the field section twice (C14_push_promise_observation)
+   si <id=val;..>         -> `ok <o|e per insert> <transcript of the SETTINGS frame built from what was accepted>`:
+                             Settings::insert, the gate every SETTINGS entry h3 sends goes through (model: settings_insert)
    Lines are answered one by one and flushed, so the python side can use this process as an oracle. *)
 let chunks_of s = if s = "-" then [] else List.map bytes_of_hex (String.split_on_char '.' s)
 let take n l = List.filteri (fun i _ -> i < n) l
@@ -24,6 +28,7 @@ let frame_of s =
   | "fs" -> FSettings (entries_of a)
   | "fw" -> FWebTransportStream (n_of_string a)
   | "fr" -> FGrease N0
+  | "fp" -> let (id, e) = split2 a ':' in FPushPromise (n_of_string id, bytes_of_hex e)
   | _ -> failwith ("frame ctor " ^ s)
 
 let build s =
@@ -52,6 +57,8 @@ let spec_frame s : (n list * n list) option =
   | "fs" -> Some (rfc_frame (n_of_int 4) (settings_bytes (entries_of a)), [])
   | "fw" -> Some (rfc_varint (n_of_int 65) @ rfc_varint (n_of_string a), [])
   | "fr" -> None
+  | "fp" -> let (id, e) = split2 a ':' in
+      Some (rfc_frame (n_of_int 5) (rfc_varint (n_of_string id) @ bytes_of_hex e), [])
   | _ -> failwith ("frame ctor " ^ s)
 let spec_build s : (n list * n list) option =
   let (k, a) = split2 s ':' in
@@ -119,6 +126,15 @@ let run_wb ctor steps =
   | Ok w -> transcript w steps
   | _ -> "panic"
 
+(* Settings::insert one entry after the other; then the frame made of the accepted ones *)
+let run_si ents =
+  let (res, fin) = List.fold_left (fun (r, acc) (i, v) ->
+    match settings_insert acc i v with
+    | Some a -> (r ^ "o", a)
+    | None -> (r ^ "e", acc)) ("", []) (entries_of ents) in
+  "ok " ^ (if res = "" then "-" else res) ^ " " ^
+  (match wb_from_frame (FSettings fin) with Ok w -> transcript w [] | _ -> "panic")
+
 let spec_wb ctor =
   match spec_build ctor with
   | None -> "grease"
@@ -183,9 +199,10 @@ let show_streams c =
 let judge_stream server id bytes =
   let uni = (id land 2) <> 0 in
   let v = if uni then rfc_judge_uni server bytes else rfc_judge_request bytes in
+  if verdict_ok v then None else
   match v with
   | VBad r -> Some (Printf.sprintf "s%d:%d" id (int_of_n r))
-  | _ -> None
+  | _ -> Some (Printf.sprintf "s%d:?" id)
 
 let judge_line server toks =
   let bad = List.filter_map (fun t ->
@@ -236,7 +253,7 @@ let run_wr role cfgs budget prog =
   let exact = exact_budget budget ops in
   let g0 = if exact then big_grease else N0 in
   match setup server cfg g0 with
-  | Ok None -> "build-err"
+  | Ok None -> (match run server cfg g0 [] with Ok None -> "build-err" | _ -> "driver-error run-differs-from-setup")
   | Err _ | Panic _ -> "panic"
   | Ok (Some c0) ->
     let c = ref c0 in
@@ -247,7 +264,8 @@ let run_wr role cfgs budget prog =
     let peer_open = ref false in
     let seen_enc = ref false and seen_dec = ref false in
     let peer_mfs = ref (n_of_string "4611686018427387903") in
-    let do_step o = if not !failed then (match step !c o with Ok c' -> c := c' | _ -> failed := true) in
+    let trace = ref [] in            (* the ops handed to `step`, replayed at the end through `run` (the function of T3) *)
+    let do_step o = if not !failed then (trace := o :: !trace; match step !c o with Ok c' -> c := c' | _ -> failed := true) in
     let fits sz = not (N.ltb !peer_mfs (n_of_int sz)) in
     (* ---- the write budget as harness/src/bin/c14.rs hands it out (exact mode only) ---- *)
     let (b0, grants) =
@@ -289,7 +307,8 @@ let run_wr role cfgs budget prog =
               | Some (f, rest) -> peer_control f; control_stream rest
               | None -> ()) in
     let end_of_poll () =
-      if server then begin
+      (* client: poll_close() drove the connection - the model's OPoll writes nothing there *)
+      if not server then do_step OPoll else begin
         do_step OPoll;
         (* accept() stayed pending (no connection error): the harness serves the blocked grease write with one grant *)
         if exact && !g_wait && not !c.c_conn_error then begin g_avail := !g_avail + next_grant (); g_wait := false end
@@ -361,11 +380,18 @@ let run_wr role cfgs budget prog =
       | "sel" -> let i = int_of_string a in if i < nh () then cur := Some i
       | "shutdown" -> do_step (OShutdown (n_of_string a))
       | _ -> ()) ops;
-    if !failed then "panic" else "ok " ^ show_streams !c
+    if !failed then "panic" else begin
+      let stepwise = show_streams !c in
+      (* the stepwise run above and the one-shot `run` of the pinned theorems must be the same function *)
+      match run server cfg g0 (List.rev !trace) with
+      | Ok (Some c') when show_streams c' = stepwise -> "ok " ^ stepwise
+      | _ -> "driver-error run-differs-from-steps"
+    end
 
 let handle ws = match ws with
   | ["wb"; ctor; steps] -> run_wb ctor steps ^ " | " ^ spec_wb ctor
   | ["wbx"; ctor; steps] -> run_wb ctor steps
+  | ["si"; ents] -> run_si ents
   | ["wr"; role; cfg; budget; prog] ->
       let m = run_wr role cfg budget prog in
       let toks = match words m with "ok" :: r -> r | _ -> [] in
